@@ -38,9 +38,10 @@ impl Compiler {
         Ok(())
     }
 
-    /// O09.3b  Stmt::Let: the name is declared FIRST (so the initialiser of a function value can refer to itself),
-    /// then the initialiser is compiled, then a store to exactly the slot that the declaration returned, in the
-    /// opcode family of its scope
+    /// O09.3b  Stmt::Let. A FUNCTION value is bound to a name that is declared first (so that the function can call
+    /// itself); for every other initialiser the name is declared AFTER the initialiser has been compiled, so inside
+    /// it the name still means the previous declaration (O09.init, fix b048f78). Then a store to exactly the
+    /// slot the declaration returned, in the opcode family of the current context.
     fn arm_let(&mut self, name: &String, value: &Expr) -> (r: Result<(), Error>)
         requires gen_inv(*old(self))
         ensures
@@ -48,28 +49,51 @@ impl Compiler {
             //@VACUITY
             sym_wf(final(self).symbols), sym_globals_kept(old(self).symbols, final(self).symbols),
             r is Ok ==> ({
-                let sym = sym_define_symbol(old(self).symbols, name@);
                 let k = old(self).log@.len() as int;
                 let code = final(self).instructions@;
+                let fnval = *value is Function;
                 &&& final(self).log@.len() == k + 1 && final(self).log@[k].what == LogWhat::E(*value) && final(self).log@[k].start == old(self).instructions@.len()
+                // O09.init: how many names the current context held when the initialiser was compiled
+                &&& final(self).log@[k].names == sym_count(old(self).symbols) + (if fnval { 1int } else { 0int })
                 &&& code.len() == final(self).log@[k].end + 3
-                &&& code[final(self).log@[k].end] == opcode_byte(store_op(sym.scope))
-                &&& u16_at(code, final(self).log@[k].end + 1) == sym.index
+                &&& (fnval ==> code[final(self).log@[k].end] == opcode_byte(store_op(sym_define_symbol(old(self).symbols, name@).scope))
+                        && u16_at(code, final(self).log@[k].end + 1) == sym_define_symbol(old(self).symbols, name@).index)
+                // otherwise the declaration is the LAST one of the current context after the statement
+                &&& (!fnval ==> code[final(self).log@[k].end] == opcode_byte(store_op(sym_cur_scope(final(self).symbols)))
+                        && u16_at(code, final(self).log@[k].end + 1) == ((sym_count(final(self).symbols) - 1) as u16))
             }),
             r is Ok ==> is_prefix(old(self).instructions@, final(self).instructions@),
             r is Ok ==> gen_post(*old(self), *final(self), true),
     {
-//@GHOST before="self.compile_expression(value)?;" let ghost s0 = *self;
-//@GHOST after="self.compile_expression(value)?;" let ghost s1 = *self;
+//@GHOST before="let symbol = if matches!(value, Expr::Function { .. }) {" let ghost mut s0 = *self; let ghost mut s1 = *self;
+//@GHOST before_all="self.compile_expression(value)?;" proof { s0 = *self; }
+//@GHOST after_all="self.compile_expression(value)?;" proof { s1 = *self; }
+//@GHOST before="let op = if symbol.scope == Scope::Global {" let ghost s2 = *self;
 //@GHOST before_all="self.emit_opcode(op);" proof { if symbol.scope == Scope::Local && self.locals_bound@ < symbol.index as int + 1 { self.locals_bound = Ghost(symbol.index as int + 1); } }
 //@ARM file=compiler.rs fn=compile_statement impl=Compiler arm="Stmt::Let" rules="R1;R4"
         proof {
-            let n = s1.instructions@.len() as int;
-            lemma_gen_post_same(*old(self), s0);
-            assert(self.instructions@ =~= s1.instructions@ + self.instructions@.subrange(n, n + 3));
-            lemma_gen_post_append(s1, *self, self.instructions@.subrange(n, n + 3));
-            lemma_gen_post_trans(*old(self), s0, s1, false, true);
-            lemma_gen_post_trans(*old(self), s1, *self, false, true);
+            let n = s2.instructions@.len() as int;
+            assert(self.instructions@ =~= s2.instructions@ + self.instructions@.subrange(n, n + 3));
+            lemma_gen_post_append(s2, *self, self.instructions@.subrange(n, n + 3));
+            let k = old(self).log@.len() as int;
+            if *value is Function {
+                lemma_gen_post_same(*old(self), s0);
+                lemma_gen_post_trans(*old(self), s0, s1, false, true);
+                lemma_declare_takes_over(ctx_view(old(self).symbols.contexts@.last()), name@);
+                assert(sym_count(s0.symbols) == sym_count(old(self).symbols) + 1);
+                assert(self.log@[k].names == sym_count(s0.symbols));
+            } else {
+                lemma_gen_post_same(s1, s2);
+                lemma_declare_takes_over(ctx_view(s1.symbols.contexts@.last()), name@);
+                assert(self.log@[k].names == sym_count(old(self).symbols));
+                assert(sym_count(s2.symbols) == sym_count(s1.symbols) + 1);
+                assert(symbol.index == (sym_count(s1.symbols) as u16));
+                assert(symbol.scope == sym_cur_scope(s2.symbols));
+            }
+            assert(self.symbols == s2.symbols);
+            assert(u16_at(self.instructions@, n + 1) == symbol.index);
+            lemma_gen_post_trans(*old(self), s1, s2, true, false);
+            lemma_gen_post_trans(*old(self), s2, *self, false, true);
             lemma_gen_post_upgrade(*old(self), *self);
         }
         Ok(())
